@@ -2,6 +2,7 @@
 R05.1 default order; R05.2 level dispatch table; R05.3 sibling processors agree; R05.4 reset table;
 R05.5 index dispatch == name dispatch; R05.6 invalid targets rejected; R05.7 phase order; R05.8 checked arithmetic."""
 import re
+import parsers
 import core, mir, panics
 
 B = "crate::version::zerv::bump::"
@@ -311,6 +312,45 @@ def check(F, rep, tier):
         elif swallowed: rep.bad("R05.6", "non-numeric-accepted", "parse_optional_u32 discards a parse failure with %s" % swallowed, pu.where())
         elif not has_parse: rep.undecided("R05.6", "parse-optional-shape", "parse_optional_u32 does not parse with str::parse::<u32>", pu.where())
         else: rep.bad("R05.6", "non-numeric-accepted", "parse_optional_u32 does not propagate a parse failure", pu.where())
+    # an out-of-range value must be rejected, not truncated
+    parsers.narrowing_casts(F, rep, "R05.6", (B, "crate::version::zerv::vars::"), "bump / override values")
+    # ---- R05.10 `index=value`: the value is everything after the first '=' ------------------------------------------------------------
+    for nm in ("parse_bump_spec", "parse_override_spec"):
+        ps = zfn(F, "<impl crate::version::zerv::core::Zerv>::" + nm)
+        if not rep.anchor("R05.10", "Zerv::" + nm, ps): continue
+        rep.fn_seen(ps)
+        pi_ = mir.inlined(F, ps, depth=3, keep=("parse_index", "parse_value"))
+        nval = 0
+        for h in [pi_] + mir.closures_in(F, pi_):
+            for bi, t in h.calls():
+                if not (mir.callee(t) or "").endswith("::parse_value") or not t[2]: continue
+                nval += 1
+                site = "%s bb%d line %s" % (h.where(), bi, h.blocks[bi]["line"])
+                how = set()
+                hh = h
+                ops = [(hh, t[2][0])]
+                # a value handed to a closure (`.map(|v| parse_value(v, ..))`) is the element of the mapped Option / iterator
+                if h.kind == "closure":
+                    par = F.fn(h.parent) if h.parent else None
+                    par = pi_ if par is not None and par.path == ps.path else par
+                    if par is not None:
+                        for b2, t2 in par.calls():
+                            if any(a[0] in ("cp", "mv") and any(o.kind == "agg" and mir.rv_at(o.fn, *o.data)[1].get("path") == h.path for o in mir.trace_op(par, a)) for a in t2[2][1:]):
+                                ops.append((par, t2[2][0]))
+                for g_, op in ops:
+                    for k, d in mir.deep_origins(g_, op, stop=()):
+                        if k == "call" and d.isdigit() and g_.blocks[int(d)]["t"][0] == "call":
+                            t2 = g_.blocks[int(d)]["t"]; c2 = mir.callee(t2) or ""
+                            if c2.endswith("str>::split_once"): how.add("split_once")
+                            elif c2.endswith("str>::splitn"): how.add("splitn:%s" % mir.const_arg(g_, t2[2][1]))
+                            elif c2.endswith("str>::split") or c2.endswith("str>::rsplit") or c2.endswith("str>::rsplit_once") or c2.endswith("str>::rsplitn"): how.add(c2.rsplit("::", 1)[-1])
+                if how and how <= {"split_once", "splitn:2"}:
+                    rep.ok("R05.10", "%s: the value is the rest of the spec after the first '=' (%s)" % (nm, sorted(how)), sample=site, nontrivial_key=nm + "val")
+                elif how & {"split", "rsplit", "rsplit_once", "rsplitn"}:
+                    rep.bad("R05.10", "value-cut:" + nm, "%s takes the value from %s of the spec: a value containing '=' (base64 padding, k=v) is cut or mis-assigned instead of being used whole" % (nm, sorted(how)), site)
+                else:
+                    rep.undecided("R05.10", "value-origin:" + nm, "cannot relate the value handed to parse_value to a split of the spec (%s)" % sorted(how), site)
+        rep.floor("R05.10", "parse_value calls in " + nm, nval, 1)
     pp = zfn(F, "<impl crate::version::zerv::core::Zerv>::parse_and_validate_process_specs")
     if rep.anchor("R05.6", "Zerv::parse_and_validate_process_specs", pp):
         rep.fn_seen(pp)
